@@ -618,7 +618,17 @@ class UndecidedValue:
     def _u(self, *a):
         raise Undecided(self.what)
 
-    __eq__ = __ne__ = __lt__ = __le__ = __gt__ = __ge__ = __bool__ = _u
+    def __eq__(self, o):
+        # `expr % m == c` on a symbolic parameter: true only on a measure-zero family; a context may choose the generic
+        # outcome (False) and must then cover the special family by concrete parameter values
+        if CTX is not None and hasattr(CTX, "decide_undecided"):
+            return CTX.decide_undecided(f"{self.what} == {o!r}")
+        raise Undecided(self.what)
+
+    def __ne__(self, o):
+        return not self.__eq__(o)
+
+    __lt__ = __le__ = __gt__ = __ge__ = __bool__ = _u
     __hash__ = object.__hash__
 
 
